@@ -211,6 +211,9 @@ var shapes = []shape{
 	{"SELECT 'é→;'", "dmps"},
 	{"SELECT 'a\\';b'", "m"},
 	{"SELECT E'a\\\\;b'", "p"},
+	{"SELECT E'it\\'s; ok'", "p"},
+	{"SELECT e'\\'; ', 2", "p"},
+	{"SELECT 1 WHERE name LIKE'x\\'", "p"},
 	{"SELECT 1 # c;\n + 2", "m"},
 	{"CREATE FUNCTION f() RETURNS int AS $$ SELECT 1; $$ LANGUAGE sql", "dp"},
 	{"CREATE FUNCTION g() RETURNS int AS $t$ SELECT ';'; $$ $t$ LANGUAGE sql", "dp"},
